@@ -3,7 +3,7 @@
    plane_equation_from_points, normal_and_offset_from_plane_equations; polliwog/tri/functions.py: surface_normals;
    the vg helpers they call (normalize, almost_unit_length, perpendicular, reject, angle, signed_angle, rotate).
    Definitions only.  fit_from_points is modelled WITH fixes/C13-fit-real-normal.diff applied (np.linalg.eigh);
-   the eigen-solver itself is a section argument (LAPACK is not modelled), see `eig_contract` in P_plane_ctor.v. *)
+   the eigen-solver itself is a section argument (LAPACK is not modelled), see `eig_contract` in proofs/P_plane_fit.v. *)
 From Coq Require Import ZArith List Bool.
 From PW Require Import Num Vec Mat NpList Result.
 From PW.model Require Import M_plane.
